@@ -38,6 +38,7 @@ def run(index, tier="quick", seed=0) -> Result:
     for cls in index.shape_classes():
         for name, fn in setters(index, cls):
             npairs += 1
+            _check_validation_first(res, cls, name, fn)
             if name in SIZE_EXEMPT:
                 ntrans += 1
                 _check_translation(res, index, cls, name, fn, scratch)
@@ -53,6 +54,47 @@ def run(index, tier="quick", seed=0) -> Result:
     if nresc < 10 or ntrans < 14:
         raise AnalysisError(f"_rescale bodies {nresc} (<10) or centroid/center setters {ntrans} (<14)")
     return res
+
+
+def _check_validation_first(res, cls, name, fn):
+    """GUARD-5: a test of the setter's argument alone (an `assert` / `if ...: raise` that does not read self) is made before
+    the first write to the object's state: placed after it, a refused argument leaves the shape half updated (vertices
+    moved, planes and stored centroid not)."""
+    import ast
+    if len(fn.params) < 2:
+        return
+    vparam = fn.params[1]
+
+    def writes_state(s_):
+        for n_ in ast.walk(s_):
+            if isinstance(n_, (ast.Assign, ast.AugAssign)):
+                for t_ in (n_.targets if isinstance(n_, ast.Assign) else [n_.target]):
+                    b_ = t_
+                    while isinstance(b_, ast.Subscript):
+                        b_ = b_.value
+                    if isinstance(b_, ast.Attribute) and isinstance(b_.value, ast.Name) and b_.value.id == "self":
+                        return True
+        return False
+
+    def arg_only_test(s_):
+        t_ = None
+        if isinstance(s_, ast.Assert):
+            t_ = s_.test
+        elif isinstance(s_, ast.If) and s_.body and isinstance(s_.body[0], ast.Raise) and not s_.orelse:
+            t_ = s_.test
+        if t_ is None:
+            return False
+        names = {x.id for x in ast.walk(t_) if isinstance(x, ast.Name)}
+        return vparam in names and "self" not in names
+    body = [s_ for s_ in fn.node.body if not (isinstance(s_, ast.Expr) and isinstance(s_.value, ast.Constant))]
+    first_write = next((i_ for i_, s_ in enumerate(body) if writes_state(s_) and not arg_only_test(s_)), None)
+    late = [s_ for i_, s_ in enumerate(body) if first_write is not None and i_ > first_write and arg_only_test(s_)]
+    k = f"{cls.name}.{name}.setter"
+    if late:
+        res.bad("GUARD-5", k + ":validation-after-write", f"{fn.file}:{late[0].lineno}", f"{k} tests its argument (`{ast.unparse(late[0])[:60]}`) after it has already "
+                f"written to the shape (`{ast.unparse(body[first_write])[:50]}`): a refused value leaves the state half updated")
+    elif any(arg_only_test(s_) for s_ in body):
+        res.ok("GUARD-5", k)
 
 
 def _getter_info(index, cls, name):
